@@ -22,6 +22,11 @@ MENU = {
     "hb": ("histogram", "a9", "a", [["Z", "z"]], [], "HISTOGRAM", [([], 3)]),
     # a vector that has children next to the child-less vector v2 of the same name and kind
     "v2b": ("gauge_vec", "a_a", "a", [["Z", "z"]], ["a"], "GAUGE", [(["z"], 4), ([""], 2)]),
+    # collectors only an application can write: a consistent UNTYPED family from a custom collector, and a vector built on
+    # a user-defined MetricVecBuilder through the documented extension point MetricVec::create
+    "cu": ("custom_untyped", "z9", "a", [["Z", "a"]], [], "UNTYPED", [([], 7)]),
+    "uv": ("user_gauge_vec", "zzz", "a", [["Z", "a"]], ["a"], "GAUGE", [(["z"], 4), (["a"], 2)]),
+    "uw": ("gauge_vec", "zzz", "a", [["Z", "z"]], ["a"], "GAUGE", [(["z"], 8)]),
     "i2": ("int_counter", "Z_a", "a", [], [], "COUNTER", [([], 6)]),      # its name already starts with the registry prefix "Z_"
     "hv": ("histogram_vec", "z", "z", [["Z9", "0"]], ["a"], "HISTOGRAM", [(["z"], 1), (["a"], 2), ([""], 1)]),
 }
@@ -46,6 +51,9 @@ def ctor_calls(i):
     calls = []
     if op == "pulling_gauge":
         return [{"op": op, "as": i, "name": name, "help": help_, "value": children[0][1]}]
+    if op == "custom_untyped":
+        return [{"op": "custom", "as": i, "descs": [{"fq_name": name, "help": help_, "const": const, "var": []}],
+                 "families": [{"name": name, "help": help_, "type": "UNTYPED", "metrics": [{"labels": const, "untyped": children[0][1]}]}]}]
     if op in ("histogram", "histogram_vec"):
         opts["buckets"] = [1, 2]
     if op.endswith("_vec"):
@@ -90,6 +98,8 @@ def scenario_calls(sel_order, prefix, common):
 
 
 def sample_value(typ, m):
+    if typ == "UNTYPED":
+        return m["untyped"].get("i")
     if typ == "HISTOGRAM":
         return m["hist"]["count"] if "hist" in m else None
     if typ == "GAUGE":
